@@ -558,4 +558,104 @@ theorem tryAutoCommit_reach (sh : Shared D L) :
     rename_i com hq
     exact Reach.removeFront hq
 
+/-! ### which arm of `Entering::next` a key takes -/
+
+/-- the key codes that `Entering::next` matches by name (every arm except the two catch-alls) -/
+def isNamedKey (c : Nat) : Bool :=
+  c == KC.backspace || c == KC.tab || c == KC.del || c == KC.home || c == KC.left || c == KC.right ||
+  c == KC.up || c == KC.down || c == KC.end_ || c == KC.pageUp || c == KC.pageDown || c == KC.enter || c == KC.esc
+
+/-- the event falls through every named / guarded arm of `Entering::next` (arm order of the Rust
+    `match`): it reaches `_ if ev.modifiers.numlock` or the final `_` arm -/
+structure DefaultArm (sh : Shared D L) (ev : KeyEvent) : Prop where
+  notNamed : isNamedKey ev.code = false
+  notCaps : ¬ (ev.code = KC.unknown ∧ ev.mods.capslock = true)
+  notCtrlDigit : ¬ (isDigitCode ev.code = true ∧ ev.mods.ctrl = true)
+  notShiftSpace : ¬ (ev.code = KC.space ∧ ev.mods.shift = true ∧ sh.options.enableFullwidthToggleKey = true)
+  notSelSpace : ¬ (ev.code = KC.space ∧ sh.options.spaceIsSelectKey = true ∧ sh.options.languageMode = .chinese)
+
+theorem enteringNext_default {sh : Shared D L} {ev : KeyEvent} (h : DefaultArm sh ev) :
+    enteringNext env sh ev =
+      if ev.mods.numlock then commitOrInsert sh ev.unicode else enteringDefault env sh ev := by
+  obtain ⟨h1, h2, h3, h4, h5⟩ := h
+  simp only [isNamedKey, Bool.or_eq_false_iff] at h1
+  obtain ⟨⟨⟨⟨⟨⟨⟨⟨⟨⟨⟨⟨a1, a2⟩, a3⟩, a4⟩, a5⟩, a6⟩, a7⟩, a8⟩, a9⟩, a10⟩, a11⟩, a12⟩, a13⟩ := h1
+  unfold enteringNext
+  simp [a1, a2, a3, a4, a5, a6, a7, a8, a9, a10, a11, a12, a13, isIdleKey]
+  rw [if_neg h2, if_neg h3, if_neg (fun hh => h4 ⟨hh.1.1, hh.1.2, hh.2⟩), if_neg (fun hh => h5 ⟨hh.1.1, hh.1.2, hh.2⟩)]
+
+theorem enteringNext_backspace {sh : Shared D L} {ev : KeyEvent} (h : ev.code = KC.backspace) :
+    enteringNext env sh ev = enteringBackspace sh := by
+  unfold enteringNext
+  simp [h]
+
+theorem enteringNext_del {sh : Shared D L} {ev : KeyEvent} (h : ev.code = KC.del) :
+    enteringNext env sh ev = enteringDel sh := by
+  unfold enteringNext
+  simp [h, KC.del, KC.backspace, KC.unknown, KC.tab, isDigitCode, isIdleKey, KC.enter, KC.esc, KC.home, KC.end_,
+    KC.left, KC.right, KC.up, KC.down, KC.pageUp, KC.pageDown]
+
+/-- the cursor keys with a non-empty pre-edit (with an empty one they are passed through: C06) -/
+theorem enteringNext_moves {sh : Shared D L} {ev : KeyEvent} (hne : sh.com.isEmpty = false) :
+    (ev.code = KC.home → enteringNext env sh ev = .ok ({ sh with com := sh.com.moveToBeginning }, .spin .absorb)) ∧
+    (ev.code = KC.left → ev.mods.shift = false →
+      enteringNext env sh ev = .ok ({ sh with com := sh.com.moveLeft }, .spin .absorb)) ∧
+    (ev.code = KC.right → ev.mods.shift = false →
+      enteringNext env sh ev = .ok ({ sh with com := sh.com.moveRight }, .spin .absorb)) ∧
+    (ev.code = KC.end_ ∨ ev.code = KC.pageUp ∨ ev.code = KC.pageDown →
+      enteringNext env sh ev = .ok ({ sh with com := sh.com.moveToEnd }, .spin .absorb)) := by
+  refine ⟨fun h => ?_, fun h hs => ?_, fun h hs => ?_, fun h => ?_⟩
+  · unfold enteringNext
+    simp [h, hne, KC.del, KC.backspace, KC.unknown, KC.tab, isDigitCode, isIdleKey, KC.enter, KC.esc, KC.home,
+      KC.end_, KC.left, KC.right, KC.up, KC.down, KC.pageUp, KC.pageDown]
+  · unfold enteringNext
+    simp [h, hs, hne, KC.del, KC.backspace, KC.unknown, KC.tab, isDigitCode, isIdleKey, KC.enter, KC.esc, KC.home,
+      KC.end_, KC.left, KC.right, KC.up, KC.down, KC.pageUp, KC.pageDown]
+  · unfold enteringNext
+    simp [h, hs, hne, KC.del, KC.backspace, KC.unknown, KC.tab, isDigitCode, isIdleKey, KC.enter, KC.esc, KC.home,
+      KC.end_, KC.left, KC.right, KC.up, KC.down, KC.pageUp, KC.pageDown]
+  · unfold enteringNext
+    rcases h with h | h | h <;>
+    simp [h, hne, KC.del, KC.backspace, KC.unknown, KC.tab, isDigitCode, isIdleKey, KC.enter, KC.esc, KC.home,
+      KC.end_, KC.left, KC.right, KC.up, KC.down, KC.pageUp, KC.pageDown, KC.space]
+
+/-- the CapsLock event and the Shift-Space event in `Entering` -/
+theorem enteringNext_capslock {sh : Shared D L} {ev : KeyEvent} (h : ev.code = KC.unknown) (hc : ev.mods.capslock = true) :
+    enteringNext env sh ev = .ok (Shared.switchLanguageMode sh, .spin .absorb) := by
+  unfold enteringNext
+  simp [h, hc, KC.unknown, KC.backspace]
+
+theorem enteringNext_shiftSpace {sh : Shared D L} {ev : KeyEvent} (h : ev.code = KC.space) (hs : ev.mods.shift = true)
+    (ht : sh.options.enableFullwidthToggleKey = true) :
+    enteringNext env sh ev = .ok (Shared.switchCharacterForm sh, .spin .absorb) := by
+  unfold enteringNext
+  simp [h, hs, ht, KC.del, KC.backspace, KC.unknown, KC.tab, isDigitCode, isIdleKey, KC.enter, KC.esc, KC.home,
+    KC.end_, KC.left, KC.right, KC.up, KC.down, KC.pageUp, KC.pageDown, KC.space]
+
+/-! ### what the inserting arms do -/
+
+theorem withCom_ok {sh : Shared D L} {r : Outcome CompEditor} {k : Shared D L → StepRes D L}
+    {x : Shared D L × Trans} (h : withCom sh r k = .ok x) : ∃ c, r = .ok c ∧ k { sh with com := c } = .ok x := by
+  unfold withCom at h
+  split at h
+  · next c => exact ⟨c, rfl, h⟩
+  · cases h
+  · cases h
+
+/-- commit at once when the buffer is empty, else insert at the cursor -/
+theorem commitOrInsert_spec {sh sh' : Shared D L} {ch : Nat} {t : Trans} (h : commitOrInsert sh ch = .ok (sh', t)) :
+    (sh.com.isEmpty = true ∧ sh' = { sh with commitBuf := [ch] } ∧ t = .spin .commit) ∨
+    (sh.com.isEmpty = false ∧ t = .spin .absorb ∧ sh.com.insert (.chr ch) = .ok sh'.com ∧
+      sh' = { sh with com := sh'.com }) := by
+  unfold commitOrInsert at h
+  split at h
+  · next he =>
+    injection h with h; injection h with h1 h2
+    exact Or.inl ⟨he, h1.symm, h2.symm⟩
+  · next he =>
+    obtain ⟨c, hc, hk⟩ := withCom_ok h
+    injection hk with hk; injection hk with h1 h2
+    subst h1
+    exact Or.inr ⟨by simpa using he, h2.symm, hc, rfl⟩
+
 end Chewing
